@@ -360,6 +360,7 @@ def check(F, run, tier):
     run.add(obs)
     run.floor("buffer-fetches", n, 3)
     run.add(c15.capacity(F, S))
+    run.add(c15.root_counted(F, S))
     run.add(decode_order(F, S))
     obs, n = drain_copies(F, S)
     run.add(obs)
